@@ -342,4 +342,132 @@ theorem css2_some (s : Str) (v : Nat) (h : css2 s = some v) :
     · cases h
   · cases h
 
+/-! ### unknown units -/
+
+def isLetter (c : Nat) : Prop := (65 ≤ c ∧ c ≤ 90) ∨ (97 ≤ c ∧ c ≤ 122)
+
+theorem isStop_letter {c : Nat} (h : isLetter c) : isStop c = false := by
+  unfold isLetter at h
+  have : ¬ isStop c = true := by
+    simp only [isStop, isWs, stopChars, List.contains_cons, List.contains_nil, Bool.or_eq_true, beq_iff_eq,
+      Bool.or_false]
+    omega
+  simpa using this
+
+theorem readIdent_letters (u : Str) (hu : ∀ c ∈ u, isLetter c) (buf : Str) :
+    readIdent buf u = identOf (buf ++ u) [] := by
+  induction u generalizing buf with
+  | nil => simp [readIdent]
+  | cons c r ih =>
+    have hc := isStop_letter (hu c (List.mem_cons_self ..))
+    rw [readIdent, hc]
+    simp only [Bool.false_eq_true, if_false]
+    rw [ih (fun x hx => hu x (List.mem_cons_of_mem _ hx))]
+    simp
+
+theorem nextToken_letters (c : Nat) (r : Str) (hu : ∀ x ∈ c :: r, isLetter x) :
+    nextToken (c :: r) = identOf (c :: r) [] := by
+  have hc := hu c (List.mem_cons_self ..)
+  have hst := isStop_letter hc
+  have hws : isWs c = false := by
+    unfold isLetter at hc
+    have : ¬ isWs c = true := by simp [isWs]; omega
+    simpa using this
+  have hd : ¬ isDigit c = true := by rw [isDigit_iff]; unfold isLetter at hc; omega
+  unfold nextToken
+  rw [eatSpace_of_not_ws c r hws]
+  simp only
+  unfold isLetter at hc
+  rw [if_neg (by simp [hd]; omega), hst]
+  simp only [Bool.false_eq_true, if_false]
+  rw [readIdent_letters r (fun x hx => hu x (List.mem_cons_of_mem _ hx))]
+  simp
+
+/-- a character that ends a number and is pushed back (anything but `.`, a digit, a sign, `e`, `E`, NUL) -/
+theorem readNumber_other (st : Nat) (buf : Str) (c : Nat) (r : Str)
+    (h : c ≠ 46 ∧ isDigit c = false ∧ c ≠ 43 ∧ c ≠ 45 ∧ c ≠ 69 ∧ c ≠ 101 ∧ c ≠ 0) :
+    readNumber st buf (c :: r) = finishNumber st buf (c :: r) := by
+  obtain ⟨h1, h2, h3, h4, h5, h6, h7⟩ := h
+  rw [readNumber, if_neg h1, if_neg (by simp [h2]), if_neg h3, if_neg h4, if_neg (by omega), if_neg h7]
+
+/-- a number followed by a word of letters (not starting with `e`/`E`) that is not a unit and not a
+keyword: the abort value −1, for all digit lists -/
+theorem parseDuration_unknown_unit (ip fp : Str) (c : Nat) (r : Str) (hip : allDigits ip = true)
+    (hfp : allDigits fp = true) (hne : ip ≠ [] ∨ fp ≠ []) (hu : ∀ x ∈ c :: r, isLetter x)
+    (he : c ≠ 69 ∧ c ≠ 101) (hunit : unitMult (c :: r) = none)
+    (hkw : c :: r ≠ kwTrue ∧ c :: r ≠ kwFalse ∧ c :: r ≠ kwNull)
+    (hrange : fp ≠ [] ∨ digitsVal ip ≤ i64Max) :
+    parseDuration (css2Text ip fp (c :: r)) = -1 := by
+  have hc := hu c (List.mem_cons_self ..)
+  have hother : c ≠ 46 ∧ isDigit c = false ∧ c ≠ 43 ∧ c ≠ 45 ∧ c ≠ 69 ∧ c ≠ 101 ∧ c ≠ 0 := by
+    have hd : ¬ isDigit c = true := by rw [isDigit_iff]; unfold isLetter at hc; omega
+    unfold isLetter at hc
+    refine ⟨by omega, by simpa using hd, by omega, by omega, he.1, he.2, by omega⟩
+  -- the number token, exactly as for a proper unit
+  have hnum : ∃ n, nextToken (css2Text ip fp (c :: r)) = ⟨.number n, c :: r⟩ := by
+    have hstart : ∃ a q, css2Text ip fp (c :: r) = a :: q ∧ (isDigit a = true ∨ a = 46) := by
+      unfold css2Text
+      cases ip with
+      | nil =>
+        cases fp with
+        | nil => simp at hne
+        | cons f fs => exact ⟨46, (f :: fs) ++ c :: r, by simp, Or.inr rfl⟩
+      | cons a as =>
+        rw [allDigits_cons, Bool.and_eq_true] at hip
+        exact ⟨a, as ++ (if fp = [] then [] else 46 :: fp) ++ c :: r, by simp, Or.inl hip.1⟩
+    obtain ⟨a, q, haq, ha⟩ := hstart
+    have hws : isWs a = false := by
+      rcases ha with ha | rfl
+      · have := (isDigit_iff a).1 ha
+        simp [isWs]; omega
+      · decide
+    have hnt : nextToken (css2Text ip fp (c :: r)) = readNumber 0 [] (css2Text ip fp (c :: r)) := by
+      unfold nextToken
+      rw [haq, eatSpace_of_not_ws a q hws]
+      simp only
+      rw [if_pos]
+      rcases ha with ha | rfl
+      · exact Or.inl ha
+      · exact Or.inr (Or.inr (Or.inr rfl))
+    rw [hnt]
+    by_cases hfpe : fp = []
+    · subst hfpe
+      have hipne : ip ≠ [] := by
+        rcases hne with h | h
+        · exact h
+        · exact absurd rfl h
+      have hr : digitsVal ip ≤ i64Max := by
+        rcases hrange with h | h
+        · exact absurd rfl h
+        · exact h
+      simp only [css2Text, if_true, List.append_nil]
+      rw [readNumber_digits ip hip, if_neg hipne, readNumber_other _ _ c r hother]
+      have hds : digitState 0 = 1 := rfl
+      rw [hds, finishNumber_one, List.nil_append, parseI64_digits ip hip hipne, if_pos hr]
+      exact ⟨_, rfl⟩
+    · simp only [css2Text, if_neg hfpe]
+      rw [List.append_assoc, readNumber_digits ip hip]
+      have hst : (if ip = [] then 0 else digitState 0) = 0 ∨ (if ip = [] then 0 else digitState 0) = 1 := by
+        by_cases h : ip = [] <;> simp [h, digitState]
+      generalize (if ip = [] then 0 else digitState 0) = st at hst
+      rw [List.cons_append, readNumber, if_pos rfl, if_pos (by omega), readNumber_digits fp hfp,
+        if_neg hfpe, readNumber_other _ _ c r hother]
+      have hlen : ([] ++ ip ++ [46] ++ fp).length ≠ 1 := by
+        cases fp with
+        | nil => exact absurd rfl hfpe
+        | cons f fs => simp; omega
+      have hds : digitState 2 = 2 := rfl
+      rw [hds, finishNumber_two, if_neg hlen]
+      have : [] ++ ip ++ [46] ++ fp = ip ++ 46 :: fp := by simp
+      rw [this, parseF64_decimal ip fp hip hfp hfpe]
+      exact ⟨_, rfl⟩
+  obtain ⟨n, hn⟩ := hnum
+  unfold parseDuration
+  rw [if_neg (css2Text_ne_nil ip fp (c :: r) (by simp)), hn]
+  simp only
+  rw [nextToken_letters c r hu]
+  unfold identOf
+  rw [if_neg (by intro h; rcases h with h | h | h; exact hkw.1 h; exact hkw.2.1 h; exact hkw.2.2 h)]
+  simp only [hunit]
+
 end Rfsm.Timer
